@@ -180,7 +180,12 @@ def glue_expect(ctx, art, line):
     if f[0] == "cfgszx":
         szx, body = int(f[2]), int(f[3])
         # datagram transports: exponents 0..6; 7 is BERT (reliable transports only), above 7 is outside the codec's domain
-        return "ok code=68 delivered=%d" % body if szx <= 6 else "err"
+        top = 7 if f[1] == "tcp" else 6
+        return "ok code=68 delivered=%d" % body if szx <= top else "err"
+    if f[0] == "srvszx":
+        # a server configured with an exponent its transport cannot use refuses to serve
+        top = 7 if f[1] == "tcp" else 6
+        return "serving" if int(f[2]) <= top else "err"
     if f[0] == "szxpeer":
         # stream transport: exponents 0..7 are in the domain (7 = BERT); anything above must be refused, whatever the peer's
         # CSM announced (with or without Max-Message-Size)
@@ -199,6 +204,13 @@ def glue_lines(ctx):
     for t in ("udp", "dtls"):
         for szx in ([2, 6, 7, 8, 9, 15, 200] if ctx.tier == "quick" else [0, 1, 2, 3, 4, 5, 6, 7, 8, 9, 15, 16, 127, 200, 255]):
             L.append("cfgszx %s %d 3000" % (t, szx))
+    # servers of all three transports configured (options.WithBlockwise) with every kind of exponent: Serve refuses what the
+    # transport cannot use.  (A stream CLIENT with such an exponent is judged towards a peer that announces block-wise
+    # transfer - `szxpeer`, configured through the same option -: library to library no block-wise transfer takes place on
+    # streams and the exponent is never used.)
+    for t in ("udp", "dtls", "tcp"):
+        for szx in ([2, 6, 7, 8, 9, 200] if ctx.tier == "quick" else [0, 1, 2, 3, 4, 5, 6, 7, 8, 9, 15, 16, 127, 200, 255]):
+            L.append("srvszx %s %d" % (t, szx))
     for szx in ([6, 7, 8, 9, 200] if ctx.tier == "quick" else [0, 5, 6, 7, 8, 9, 15, 16, 127, 200, 255]):
         for pm in (0, 1152, 4096):
             L.append("szxpeer %d %d 3000" % (szx, pm))
@@ -227,7 +239,7 @@ def glue(ctx, art):
             continue
         want = glue_expect(ctx, art, l)
         if want is not None and o != want:
-            clause = "refused-outside-domain" if l.startswith(("cfgszx", "szxpeer")) else "bert-bounded-by-max-message-size"
+            clause = "refused-outside-domain" if l.startswith(("cfgszx", "szxpeer", "srvszx")) else "bert-bounded-by-max-message-size"
             ctx.violations.append(common.Violation(clause, "C19:glue:" + " ".join(l.split()[:2]), "%s: observed `%s`, expected `%s`" % (l, o, want),
                                                    {"input": [l], "observed": o, "expected": want, "glue": True}))
 
